@@ -117,6 +117,12 @@ func solveObligation(o *Obligation, reg *Registry, cfg *SolverCfg) {
 		}
 		ans, raw, dur := runSolver(cmd, file, to)
 		total += dur
+		if strings.Contains(raw, "(error ") && !strings.Contains(raw, "model is not available") {
+			// a malformed query is an engine error, never an answer
+			o.Status = "engine-error"
+			o.Output = fmt.Sprintf("[%s] %s", solverName(cmd), firstLines(raw, 4))
+			return
+		}
 		outputs = append(outputs, fmt.Sprintf("[%s %.2fs] %s", solverName(cmd), dur, firstLines(raw, 6)))
 		for i := 0; i < n && i < len(ans); i++ {
 			if final[i] == "" && (ans[i] == "sat" || ans[i] == "unsat") {
